@@ -8,7 +8,7 @@ Unknown constructs evaluate to "fresh" (never a source of alarms) and are counte
 """
 from __future__ import annotations
 import ast
-from .core import dotted, src, FuncInfo, ClassInfo
+from .core import dotted, src, FuncInfo, ClassInfo, guarded, guarded_list
 from . import paths
 
 VIEW_METHODS = {'tensor', 'view', 'view_as', 'reshape', 'flatten', 'expand', 'expand_as', 'transpose', 'permute', 'unsqueeze',
@@ -534,6 +534,7 @@ def cached_summaries(repo):
     return got
 
 
+@guarded
 def rule_pure(repo, rid, text, targets, floor=None, allow_self=True):
     """targets: [(module, qualname)].  No target writes in place into a tensor argument (or, for allow_self=False, into self state)
     or into storage shared between calls."""
